@@ -1766,6 +1766,9 @@ bad_entry:
  * are comma separated
  *
  * keyword,encoding,value
+ *
+ * Returns 1 for an entry, 0 at the end of the configuration, -1 for an
+ * entry that cannot be used.
  */
 static int
 get_split_entry(const char **start,
@@ -1838,6 +1841,8 @@ retry:
   case COAP_ENC_ASCII:
     value->u.value_bin =
         coap_new_bin_const((const uint8_t *)begin, end - begin);
+    if (value->u.value_bin == NULL)
+      goto bad_entry;
     break;
   case COAP_ENC_HEX:
     /* Parse the hex into binary */
@@ -1870,7 +1875,7 @@ bad_entry:
   coap_log_warn("oscore_conf: Unrecognized configuration entry '%.*s'\n",
                 (int)(end - begin),
                 begin);
-  return 0;
+  return -1;
 }
 
 #undef CONFIG_ENTRY
@@ -1942,6 +1947,7 @@ coap_parse_oscore_conf_mem(coap_str_const_t conf_mem) {
   coap_str_const_t keyword;
   oscore_value_t value;
   coap_oscore_conf_t *oscore_conf;
+  int ret = 0;
 
   oscore_conf = coap_malloc_type(COAP_STRING, sizeof(coap_oscore_conf_t));
   if (oscore_conf == NULL)
@@ -1960,7 +1966,7 @@ coap_parse_oscore_conf_mem(coap_str_const_t conf_mem) {
   oscore_conf->break_recipient_key = 0;
 
   while (end > start &&
-         get_split_entry(&start, end - start, &keyword, &value)) {
+         (ret = get_split_entry(&start, end - start, &keyword, &value)) > 0) {
     size_t i;
     size_t j;
 
@@ -2045,6 +2051,10 @@ coap_parse_oscore_conf_mem(coap_str_const_t conf_mem) {
         coap_delete_bin_const(value.u.value_bin);
       goto error;
     }
+  }
+  if (ret < 0) {
+    /* Do not use a configuration that was only partly taken in */
+    goto error;
   }
   if (!oscore_conf->master_secret) {
     coap_log_warn("oscore_conf: master_secret not defined\n");
